@@ -6,14 +6,16 @@ fresh REAL objects) of
                 every kind (memory_pool<node|array|small>, memory_pool_collection<..,identity|log2>, memory_stack,
                 iteration_allocator<2>, mixed) built over ONE first-fit upstream that hands out adjacent blocks, with
                 try_deallocate_node/array(A, p, shape) for every allocator A and every live pointer p of every sibling;
- part 2 "comp": ALL sequences up to depth 5 (quick) / 7 (thorough; 6 in rel) of {allocate node, allocate array x1/x2/x3, release
+ part 2 "comp": ALL sequences up to depth 5 (quick) / 7 (thorough rwd; 6 in rel, dbg) of {allocate node, allocate array x1/x2/x3, release
                 any live allocation} on 28 compositions (fallback, nested fallbacks, aligned/tracked/reference/
-                type-erased reference/thread_safe layers, binary_segregator) x 8 leaf configurations (instrumented
+                type-erased reference/thread_safe layers, binary_segregator) x 8 (+4 extended) leaf configurations (instrumented
                 leaves with a call log and real pools/stacks/collections behind them) x {normal, composable} interface.
 """
 
 SIB = ["pool_node", "pool_array", "pool_small", "pool_mixed", "coll_identity", "coll_log2", "stack", "iter",
        "mixed_a", "mixed_b", "mixed_c", "mixed_d"]
+# scenarios in which pools / collections / stacks grow to 2-3 upstream blocks inside the bound
+GROWING = ["pool_node", "pool_array", "pool_mixed", "coll_log2", "stack", "mixed_a", "mixed_b", "mixed_d"]
 
 
 def check(prop, tier, only):
@@ -25,20 +27,30 @@ def check(prop, tier, only):
     jobs = []
     for cfg in cfgs:
         shards = 1 if quick else 2
-        for sc in SIB:
-            for s in range(shards):
-                jobs.append(checks.J("h_compose", cfg, f"--part sib --scen {sc} --shard {s} --of {shards}",
-                                     name=f"siblings/{sc}/shard{s}of{shards}[{cfg}]"))
+        for place in (("asc", "desc") if cfg == "rel" else ("asc", "desc", "alt")):
+            # descending / alternating upstream placement only matters for allocators that take more than one block
+            for sc in (SIB if place == "asc" else GROWING):
+                for s in range(shards):
+                    jobs.append(checks.J("h_compose", cfg, f"--part sib --scen {sc} --place {place} --shard {s} --of {shards}",
+                                         name=f"siblings/{sc}/{place}/shard{s}of{shards}[{cfg}]"))
+        # thorough: depth 7 in rwd (what the repository's tests run), 6 in rel and dbg (the composition layers are header
+        # templates without configuration dependent code; only the real pools behind the leaves differ)
+        d = 5 if quick else (7 if cfg == "rwd" else 6)
         groups = 6 if quick else 16
         for g in range(groups):
-            # thorough: depth 7 where debug code is compiled in (rwd, dbg), 6 in rel (the composition layers are header
-            # templates without configuration dependent code; only the real pools behind the leaves differ)
-            d = 5 if quick else (6 if cfg == "rel" else 7)
             jobs.append(checks.J("h_compose", cfg, f"--part comp --group {g} --groups {groups} --depth {d}",
-                                 name=f"compositions/group{g}of{groups}/depth{d}[{cfg}]"))
+                                 name=f"compositions/asc/group{g}of{groups}/depth{d}[{cfg}]"))
+        for place in ("desc", "alt"):
+            groups = 1 if quick else 4
+            for g in range(groups):
+                jobs.append(checks.J("h_compose", cfg, f"--part comp --place {place} --group {g} --groups {groups} --depth {d}",
+                                     name=f"compositions/{place}/group{g}of{groups}/depth{d}[{cfg}]"))
     note = ("Bounded model checking of the real objects by exhaustive sequence enumeration (no state is carried over: every "
             "sequence is executed from scratch on fresh allocators over a deterministic first-fit upstream arena whose blocks are "
-            "adjacent). Part 1 oracle (shadow model of who handed out which pointer): try_deallocate_*(A,p,shape) returns true iff A "
+            "adjacent; three placement policies: lowest free address, highest free address (every later block BELOW the earlier ones), per "
+            "owner alternating lowest/highest (third block between the first two)). next_iteration() is part of the alphabet for "
+            "iteration_allocator<2|3>: an allocation leaves the model's live set after N calls, until then try_deallocate must say true. "
+            "Part 1 oracle (shadow model of who handed out which pointer): try_deallocate_*(A,p,shape) returns true iff A "
             "handed p out; on false the digest of the whole upstream memory, of all three allocator objects and capacity_left / "
             "pool_capacity_left are unchanged; on true the capacity grows by exactly the released nodes (pools, collections) and the "
             "range leaves the live set; every pointer returned by an allocator lies in an upstream block owned by it and is disjoint "
